@@ -95,6 +95,7 @@ Definition dOp : dec op :=
   | 10 => ret ORestart
   | 11 => let* sp := dSpec in ret (OReplaceJob sp)
   | 12 => ret OJobDeleting
+  | 13 => ret OStaleJob
   | _ => fail
   end.
 
